@@ -56,6 +56,79 @@ type Session struct {
 // Kill drops the whole TCP connection abruptly ("the peer goes away").
 func (s *Session) Kill() { s.nc.Close() }
 
+// Freeze makes the server stop processing this connection: the TCP connection stays up and the
+// kernel keeps accepting what the client sends, but nothing of it reaches the ssh server any more
+// (a peer that hangs). Ends with the connection.
+func (s *Session) Freeze() {
+	if f, ok := s.nc.(*freezeConn); ok {
+		f.freeze()
+	}
+}
+
+// freezeConn is a net.Conn whose Read can be frozen.
+type freezeConn struct {
+	net.Conn
+	mu     sync.Mutex
+	frozen chan struct{} // non-nil while frozen; closed by Close
+	closed bool
+}
+
+func (f *freezeConn) freeze() {
+	f.mu.Lock()
+	if f.frozen == nil && !f.closed {
+		f.frozen = make(chan struct{})
+	}
+	f.mu.Unlock()
+}
+
+func (f *freezeConn) Read(b []byte) (int, error) {
+	f.mu.Lock()
+	ch := f.frozen
+	f.mu.Unlock()
+	if ch != nil {
+		<-ch
+		return 0, net.ErrClosed
+	}
+	n, err := f.Conn.Read(b)
+	// frozen while we were inside the read: what arrived is withheld, too
+	f.mu.Lock()
+	ch = f.frozen
+	f.mu.Unlock()
+	if ch != nil {
+		<-ch
+		return 0, net.ErrClosed
+	}
+	return n, err
+}
+
+func (f *freezeConn) Close() error {
+	f.mu.Lock()
+	if !f.closed {
+		f.closed = true
+		if f.frozen != nil {
+			close(f.frozen)
+		}
+	}
+	f.mu.Unlock()
+	return f.Conn.Close()
+}
+
+// RotateHostKey gives the server a fresh ed25519 host key; connections accepted from now on get it.
+func (s *Server) RotateHostKey() error {
+	_, priv, err := ed25519.GenerateKey(rand.Reader)
+	if err != nil {
+		return err
+	}
+	signer, err := ssh.NewSignerFromKey(priv)
+	if err != nil {
+		return err
+	}
+	s.mu.Lock()
+	s.signer, s.plain = signer, signer.PublicKey()
+	s.mu.Unlock()
+	return nil
+}
+
 // Server is the in-process SSH server.
 type Server struct {
 	ln      net.Listener
@@ -137,8 +210,12 @@ func (s *Server) PlainHostKey() ssh.PublicKey { return s.plain }
 // Port is the TCP port the server listens on.
 func (s *Server) Port() int { return s.port }
 
-// HostKey is the server's public host key.
-func (s *Server) HostKey() ssh.PublicKey { return s.signer.PublicKey() }
+// HostKey is the server's (current) public host key.
+func (s *Server) HostKey() ssh.PublicKey {
+	s.mu.Lock()
+	defer s.mu.Unlock()
+	return s.signer.PublicKey()
+}
 
 // SetAccount installs (or with nil removes) what is accepted for a user.
 func (s *Server) SetAccount(user string, a *Account) {
@@ -217,14 +294,15 @@ func (s *Server) acceptLoop() {
 		}
 		s.connSeq++
 		id := s.connSeq
-		s.conns[id] = nc
+		fc := &freezeConn{Conn: nc}
+		s.conns[id] = fc
 		s.events = append(s.events, Event{Conn: id, Kind: "connect", Info: nc.RemoteAddr().String()})
 		s.mu.Unlock()
 		s.wg.Add(1)
 		go func() {
 			defer s.wg.Done()
-			s.serveConn(id, nc)
-			nc.Close()
+			s.serveConn(id, fc)
+			fc.Close()
 			s.mu.Lock()
 			delete(s.conns, id)
 			s.mu.Unlock()
@@ -277,7 +355,10 @@ func (s *Server) serveConn(id int64, nc net.Conn) {
 			s.log(e)
 		},
 	}
-	cfg.AddHostKey(s.signer)
+	s.mu.Lock()
+	signer := s.signer
+	s.mu.Unlock()
+	cfg.AddHostKey(signer)
 	nc.SetDeadline(time.Now().Add(60 * time.Second)) // a stuck handshake must not pin the goroutine
 	sc, chans, reqs, err := ssh.NewServerConn(nc, cfg)
 	if err != nil {
